@@ -45,6 +45,9 @@ def puppet_scenario(sc):
         beh["tstp"] = "ignore"
     if sc.get("child"):
         beh["child"] = {"for": (sc["dur"] + 12) * u, "hold": [], "on_term": "exit" if ot == "exit" else "ignore"}
+    if sc.get("hold"):
+        # a descendant keeps the test's stdout open for `hold` units after the test itself exited
+        beh["child"] = {"for": (sc["dur"] + sc["hold"]) * u, "hold": ["stdout"], "on_term": "ignore"}
     tests = {"subject": {"attempts": [beh]}}
     if sc.get("retry_companion"):
         # sorts before "subject" in the same binary; fails at once, then sits in its retry delay
@@ -64,7 +67,7 @@ def coq_case(sc):
     ot = sc["on_term"]
     react = {"exit": "OnTermExit", "ignore": "OnTermIgnore"}.get(ot) if isinstance(ot, str) else f"(OnTermLate {ms(ot[1], u)})"
     beh = (f"{{| b_dur := {ms(sc['dur'], u)}; b_exit_ok := {vlib.coq_bool(sc.get('exit', 0) == 0)}; "
-           f"b_on_term := {react}; b_hold := 0; b_stops := {vlib.coq_bool(sc.get('stops', True))} |}}")
+           f"b_on_term := {react}; b_hold := {ms(sc.get('hold', 0), u)}; b_stops := {vlib.coq_bool(sc.get('stops', True))} |}}")
     reqs, shuts = [], 0
     for t, name in sc["sigs"]:
         if name == "TSTP":
@@ -272,9 +275,26 @@ def oracle_C09(sc, obs):
     return None
 
 
+def oracle_leak(sc, obs):
+    """pipes held by a descendant for longer than the leak timeout after a clean exit: LEAK, whatever
+    signals arrive while nextest is draining them"""
+    u = sc["u"]
+    if sc.get("hold") and sc.get("exit", 0) == 0 and not sc.get("ta"):
+        first_shut = min([t for t, n in sc["sigs"] if n in SHUT], default=None)
+        if first_shut is None or first_shut > sc["dur"] + 0.45:
+            want = "leak" if sc["hold"] > sc["leak"] + 0.45 else ("pass" if sc["hold"] < sc["leak"] - 0.45 else None)
+            if want and obs.get("result") != want:
+                return (f"test exited 0 and a descendant held its stdout for {sc['hold'] * u:.0f} ms (leak timeout "
+                        f"{sc['leak'] * u:.0f} ms): reported {obs.get('result')}, expected {want}")
+    return None
+
+
 def oracle_C11(sc, obs):
     w = oracle_common(sc, obs)
     if w or not obs.get("started"):
+        return w
+    w = oracle_leak(sc, obs)
+    if w:
         return w
     u = sc["u"]
     eps = 0.45 * u
@@ -284,7 +304,7 @@ def oracle_C11(sc, obs):
     t1, n1 = shut[0]
     dur, grace = sc["dur"] * u, sc["grace"] * u
     if t1 > dur - eps:
-        return None  # the test was (nearly) over when the signal came
+        return None  # the test was (nearly) over when the signal came (leak drain: see oracle_leak)
     signo = int(SIGNO[n1])
     got = [(t, s) for t, s in obs["sig_test"] if s in (1, 2, 3, 15)]
     period, ta = sc["period"] * u, sc.get("ta")
